@@ -167,6 +167,27 @@ def fam_trace(rng):
     return dict(exec=dict(kind="plain", max_workers=maxw, timeout=rng.choice([None, None, 0.5])), users={"u1": u1}, fam="trace")
 
 
+def fam_memleak(rng):
+    """workers that leave because their memory grew (psutil branch): a clean, announced exit after any task, replaced by the
+    manager while work is pending -- invisible to the user like an idle-timeout exit"""
+    maxw = rng.choice([1, 2, 2, 3])
+    nt = rng.randint(3, 7)
+    u1 = []
+    for i in range(nt):
+        u1.append(["submit", i + 1, rng.choice(["ok", "ok", "ok", "raise", "big"])])
+        if rng.random() < 0.2:
+            u1.append(["wait", rng.randint(1, i + 1)])
+    fin = rng.choice(["shutdown_wait", "shutdown_wait", "none", "shutdown_nowait"])
+    if fin == "shutdown_wait":
+        u1 += [["shutdown", True, False]]
+    elif fin == "shutdown_nowait":
+        u1 += [["shutdown", False, False], ["wait_all"]]
+    else:
+        u1 += [["wait_all"], ["settle"], ["submit", 91, "ok"], ["wait", 91], ["shutdown", True, False]]
+    return dict(exec=dict(kind=rng.choice(["plain", "plain", "reusable"]), max_workers=maxw, timeout=rng.choice([None, 0.5]),
+                          leak_after=rng.choice([1, 1, 2, 3])), users={"u1": u1}, fam="memleak")
+
+
 def fam_respawn_crash(rng):
     """a worker spawned by submit() (after idle timeouts emptied the pool, or at first use) dies at once: the window in
     which the manager's sentinel snapshot does not yet contain the new worker"""
@@ -372,7 +393,7 @@ def fam_reusable(rng):
     return dict(exec=dict(kind="reusable", max_workers=m0, timeout=tmo), users=users, fam="reusable")
 
 
-FAMILIES = dict(resize_crash=fam_resize_crash, resize_saturation=fam_resize_saturation, trace=fam_trace, crash_shutdown=fam_crash_shutdown, callback=fam_callback, resize_partial=fam_resize_partial, resize_wait=fam_resize_wait, map=fam_map, reusable=fam_reusable, respawn_crash=fam_respawn_crash, mixed=fam_mixed, crash=fam_crash, kill=fam_kill, timeout=fam_timeout, saturation=fam_saturation, init=fam_init)
+FAMILIES = dict(memleak=fam_memleak, resize_crash=fam_resize_crash, resize_saturation=fam_resize_saturation, trace=fam_trace, crash_shutdown=fam_crash_shutdown, callback=fam_callback, resize_partial=fam_resize_partial, resize_wait=fam_resize_wait, map=fam_map, reusable=fam_reusable, respawn_crash=fam_respawn_crash, mixed=fam_mixed, crash=fam_crash, kill=fam_kill, timeout=fam_timeout, saturation=fam_saturation, init=fam_init)
 
 
 def policies(rng, fam):
